@@ -181,6 +181,22 @@ def emit(e):
     return N(["emit", e.core], "(emit %s)" % e.scm)
 
 
+def delay_force(e):
+    return N(["delayf", e.core], "(delay-force %s)" % e.scm)
+
+
+def delay(e):
+    return N(["delayf", ["mkprom", e.core]], "(delay %s)" % e.scm)
+
+
+def make_promise(e):
+    return N(["mkprom", e.core], "(make-promise %s)" % e.scm)
+
+
+def force(e):
+    return N(["force", e.core], "(force %s)" % e.scm)
+
+
 def callcc(f):
     return N(["callcc", f.core], "(call-with-current-continuation %s)" % f.scm)
 
@@ -614,3 +630,57 @@ class Gen09(Gen03):
             else:
                 st.append(emit(guard(e, [(B(True), S("caught"))], let([("zz", I(0))], prim("quotient", self.const_expr(1), V("zz"))))))
         return begin(*st)
+
+
+# ---------------------------------------------------------------------------------------------------------------------
+# Promises (R7RS 4.2.5): delay / delay-force / make-promise / force - memoisation, sharing after delay-force,
+# re-entrant forcing, lazy streams.  Only promises are forced (force of a non-promise is optional in R7RS).
+def lazy_cases(rng):
+    k = lambda: rng.randrange(1, 50)
+    out = []
+    # the body of a delay runs once, at the first force
+    n, p = fresh("ln"), fresh("lp")
+    a = k()
+    out.append(("memo", let([(n, I(0))], let([(p, delay(begin(set_(n, prim("+", V(n), I(1))), emit(V(n)), prim("+", V(n), I(a)))))],
+                begin(emit(S("made")), emit(force(V(p))), emit(force(V(p))), emit(V(n)))))))
+    # R7RS: re-entrant forcing - the first value delivered wins
+    cnt, x, p = fresh("lc"), fresh("lx"), fresh("lp")
+    lim = rng.randrange(2, 7)
+    out.append(("reentrant", let([(cnt, I(0)), (x, I(lim))],
+                letrec([p], [delay(begin(set_(cnt, prim("+", V(cnt), I(1))), if_(prim(">", V(cnt), V(x)), V(cnt), force(V(p)))))],
+                       begin(emit(force(V(p))), set_(x, I(lim + 5)), emit(force(V(p))), emit(V(cnt)))))))
+    # R7RS: (delay-force r) chains share the result; the body of r runs once whichever promise is forced first
+    r, s, t = fresh("lr"), fresh("ls"), fresh("lt")
+    b = k()
+    order = rng.choice([[t, r, s], [r, t, s], [s, t, r]])
+    out.append(("chain-sharing", let([(r, delay(begin(emit(S("hi")), I(b))))],
+                let([(s, delay_force(V(r)))], let([(t, delay_force(V(s)))],
+                    begin(*[emit(force(V(q))) for q in order]))))))
+    # make-promise: a value becomes a forced promise, a promise is returned as it is
+    m1, m2 = fresh("lm"), fresh("lm")
+    c = k()
+    out.append(("make-promise", let([(m1, make_promise(I(c)))], let([(m2, make_promise(V(m1)))],
+                begin(emit(prim("promise?", V(m1))), emit(prim("promise?", I(c))), emit(force(V(m1))), emit(force(V(m2))),
+                      emit(force(make_promise(prim("list", I(c), I(1))))))))))
+    # a lazy stream of integers: (ints n) = (delay (cons n (ints (+ n 1)))); take the first j elements
+    ints, take, j0 = fresh("lints"), fresh("ltake"), rng.randrange(2, 6)
+    st, jj, acc = fresh("lst"), fresh("lj"), fresh("lacc")
+    cell = fresh("lcell")
+    out.append(("stream", letrec([ints, take],
+                [lam(["n"], None, delay(begin(emit(V("n")), prim("cons", V("n"), app(V(ints), [prim("+", V("n"), I(1))]))))),
+                 lam([st, jj, acc], None, if_(prim("=", V(jj), I(0)), prim("reverse", V(acc)),
+                     let([(cell, force(V(st)))], app(V(take), [prim("cdr", V(cell)), prim("-", V(jj), I(1)), prim("cons", prim("car", V(cell)), V(acc))]))))],
+                let([("s0", app(V(ints), [I(k())]))],
+                    begin(emit(app(V(take), [V("s0"), I(j0), NIL])), emit(app(V(take), [V("s0"), I(j0 - 1), NIL])))))))
+    # an iterative lazy loop (delay-force) computing a sum; the promise is forced twice
+    lp, p2 = fresh("lloop"), fresh("lp")
+    cntv = rng.randrange(3, 9)
+    out.append(("delay-force-loop", letrec([lp], [lam(["i", "a"], None, if_(prim("=", V("i"), I(0)), delay(begin(emit(S("done")), V("a"))),
+                                                                  delay_force(app(V(lp), [prim("-", V("i"), I(1)), prim("+", V("a"), V("i"))]))))],
+                let([(p2, app(V(lp), [I(cntv), I(0)]))], begin(emit(force(V(p2))), emit(force(V(p2))))))))
+    # a promise whose body raises: the error reaches the forcer's handler, a later force runs the body again
+    pe, ne = fresh("lpe"), fresh("lne")
+    ge = fresh("e")
+    out.append(("raise-in-body", let([(ne, I(0))], let([(pe, delay(begin(set_(ne, prim("+", V(ne), I(1))), if_(prim("<", V(ne), I(2)), N(["raise", ["const", ["s", "boom"]]], "(raise 'boom)"), V(ne)))))],
+                begin(emit(guard(ge, [(B(True), S("caught"))], force(V(pe)))), emit(force(V(pe))), emit(force(V(pe))))))))
+    return out
